@@ -1,8 +1,8 @@
 /-
   Round trip of the typed codec, compositionally. `ElemExact cx c ok val need` says that for the trees of a class
   `ok`, decoding the payload of `t` into a fresh variable of type `c` yields exactly `val t` and encoding `val t`
-  writes exactly the payload of `t` (tag `t.tag`). The classes are closed under slices (`elem_slice`) and maps
-  (`elem_map`); the base classes are the scalars, strings, typed arrays and the carriers.
+  writes exactly the payload of `t` (tag `t.tag`). This file has the base classes: the scalars, strings, typed arrays
+  and the carriers. The closure under slices, arrays, maps, pointers and structs is in `Lemmas/NBTFragment`.
 -/
 import GoMC.Lemmas.NBTCarrier
 set_option linter.unusedSimpArgs false
@@ -41,138 +41,7 @@ theorem cost_le_costList {t : NBT} : ∀ {ts : List NBT}, t ∈ ts → cost t + 
     · omega
     · have := cost_le_costList h'; omega
 
-section
-variable {cx : SnbtCarrier} {c : GoType} {ok : NBT → Prop} {val : NBT → GoVal} {need : NBT → Nat}
-  (hx : ElemExact cx c ok val need)
-include hx
 
-/-- trees a `[]c` stands for: lists of `ok` trees whose tag makes a list (not a typed array), the empty list with
-the static element tag -/
-def okSlice (c : GoType) (ok : NBT → Prop) : NBT → Prop
-  | .list e ts => (NBT.list e ts).WF ∧ (∀ t ∈ ts, ok t) ∧ (ts = [] → e = tagOfType c)
-  | _ => False
-
-def valSlice (c : GoType) (val : NBT → GoVal) : NBT → GoVal
-  | .list _ ts => .slice c false (ts.map val)
-  | _ => .slice c false []
-
-def needSlice (need : NBT → Nat) : NBT → Nat
-  | .list _ ts => needMax need ts + 2
-  | _ => 2
-
-/-- `[]c` for an element class whose values make lists: closed under slices -/
-theorem elem_slice (hseq : ∀ t, ok t → (val t).isCarrier = true ∨ arrTag t.tag = 9)
-    (hstat : arrTag (tagOfType c) = 9) :
-    ElemExact cx (.slice c) (okSlice c ok) (valSlice c val) (needSlice need) where
-  zeroTy := rfl
-  needPos := by intro t _; cases t <;> simp [needSlice]
-  reads := by
-    intro d fuel t hok
-    cases t with
-    | list e ts =>
-      obtain ⟨hwf, hoks, hemp⟩ := hok
-      have hwf' := hwf
-      simp only [NBT.WF, two31] at hwf'
-      obtain ⟨hlen, hnz, hle, hwfl⟩ := hwf'
-      cases fuel with
-      | zero => unfold unmarshal; exact R_fail (by simp [cost]) _ _
-      | succ f =>
-        have hnz' : e ≠ 0#8 ∨ ts.length = 0 := by
-          rcases hnz with h | h
-          · right; simp [h]
-          · exact Or.inl h
-        unfold unmarshal
-        have h9 : (9 : BitVec 8).toNat = 9 := rfl
-        simp only [NBT.tag, NBT.tagList, umSlice, h9, encPayload, valSlice]
-        have : e :: beBytes 4 ts.length ++ encList ts = (e :: beBytes 4 ts.length) ++ (encList ts ++ []) := by simp
-        rw [this]
-        apply R_bind (R_listHeader _ e ts.length hle hlen hnz')
-        simp only
-        apply R_bind
-        · apply R_rdRepeat
-          intro t ht
-          have := hx.reads d f t (hoks t ht)
-          rw [(wfList_mem hwfl t ht).1] at this
-          exact R_mono (fun h => by
-            have := cost_le_costList ht
-            simp only [cost] at h; omega) this
-        · exact R_pure _ _
-    | _ => exact hok.elim
-  getTag := by
-    intro f t hok hf
-    cases t with
-    | list e ts =>
-      obtain ⟨hwf, hoks, hemp⟩ := hok
-      simp only [needSlice] at hf
-      obtain ⟨f', rfl⟩ : ∃ f', f = f' + 1 := ⟨f - 1, by omega⟩
-      cases ts with
-      | nil =>
-        rw [show (NBT.list e []).tag = 9 from rfl]
-        simp only [valSlice, List.map_nil, getTagType, hstat]
-      | cons t0 ts' =>
-        have hg0 := hx.getTag f' t0 (hoks t0 (List.mem_cons_self)) (by simp only [needMax] at hf; omega)
-        simp only [valSlice, List.map_cons]
-        rw [getTagType_slice_cons, hg0, show (NBT.list e (t0 :: ts')).tag = 9 from rfl]
-        rcases hseq t0 (hoks t0 (List.mem_cons_self)) with h | h
-        · simp [h]
-        · by_cases hc : (val t0).isCarrier = true
-          · simp [hc]
-          · simp only [hc, Bool.false_eq_true, if_false, h]
-    | _ => exact hok.elim
-  marshal := by
-    intro f t hok hf
-    cases t with
-    | list e ts =>
-      obtain ⟨hwf, hoks, hemp⟩ := hok
-      have hwf' := hwf
-      simp only [NBT.WF, two31] at hwf'
-      obtain ⟨hlen, hnz, hle, hwfl⟩ := hwf'
-      simp only [needSlice] at hf
-      obtain ⟨f', rfl⟩ : ∃ f', f = f' + 2 := ⟨f - 2, by omega⟩
-      have hsl : ∀ xs, GoVal.isCarrier (.slice c false xs) = false := fun _ => rfl
-      rw [show (NBT.list e ts).tag = 9 from rfl]
-      simp only [valSlice]
-      unfold Go.marshal
-      rw [hsl]
-      simp only [Bool.false_eq_true, if_false]
-      cases ts with
-      | nil =>
-        have h9 : (9 : BitVec 8).toNat = 9 := rfl
-        simp only [List.map_nil, writeValue, h9, resMapM, resFlatten, List.flatten_nil, List.append_nil,
-          List.length_nil, encPayload, encList, hemp rfl, beN_eq]
-      | cons t0 ts' =>
-        have hn0 : need t0 ≤ f' := by simp only [needMax] at hf; omega
-        have hg0 := hx.getTag f' t0 (hoks t0 (List.mem_cons_self)) hn0
-        have ht0 := wfList_mem hwfl t0 (List.mem_cons_self)
-        rw [List.map_cons, writeValue_list_slice, hg0]
-        have hm : resMapM (elemEnc (getTagType cx f') (Go.marshal cx f') t0.tag) ((t0 :: ts').map val)
-            = Res.ok ((t0 :: ts').map encPayload) := by
-          apply resMapM_map_ok
-          intro t ht
-          have hnt : need t ≤ f' := by have := le_needMax (need := need) ht; omega
-          unfold elemEnc
-          simp only [hx.getTag f' t (hoks t ht) hnt, (wfList_mem hwfl t ht).1, ht0.1, ne_eq, not_true_eq_false, if_false]
-          have := hx.marshal f' t (hoks t ht) hnt
-          rw [(wfList_mem hwfl t ht).1] at this
-          exact this
-        rw [← List.map_cons, hm]
-        simp only [resFlatten, encPayload, ht0.1, beN_eq, List.length_map, encList_eq_flatten]
-    | _ => exact hok.elim
-
-/-- trees a `map[string]c` stands for: compounds with short, pairwise different keys and `ok` values -/
-def okMap (ok : NBT → Prop) : NBT → Prop
-  | .compound kvs => (∀ kv ∈ kvs, kv.1.length < 32768 ∧ ok kv.2) ∧ (kvs.map (·.1)).Nodup
-  | _ => False
-
-def valMap (c : GoType) (val : NBT → GoVal) : NBT → GoVal
-  | .compound kvs => .map c false (kvs.map fun kv => (kv.1, val kv.2))
-  | _ => .map c false []
-
-def needMap (need : NBT → Nat) : NBT → Nat
-  | .compound kvs => needMax need (kvs.map (·.2)) + 2
-  | _ => 2
-
-omit hx in
 theorem cost_le_costKvs {kv : Bytes × NBT} : ∀ {kvs : List (Bytes × NBT)}, kv ∈ kvs → cost kv.2 + 1 ≤ costKvs kvs
   | [], h => by cases h
   | (k, v) :: kvs, h => by
@@ -181,107 +50,11 @@ theorem cost_le_costKvs {kv : Bytes × NBT} : ∀ {kvs : List (Bytes × NBT)}, k
     · show cost v + 1 ≤ _; omega
     · have := cost_le_costKvs h'; omega
 
-omit hx in
 theorem length_le_costKvs : ∀ kvs : List (Bytes × NBT), kvs.length + 1 ≤ costKvs kvs
   | [] => by simp [costKvs]
   | (k, v) :: kvs => by
     have := length_le_costKvs kvs
     simp only [costKvs, List.length_cons]; omega
-
-/-- the loop of the map branch, for an element class -/
-theorem elem_mapLoop (d : Bool) (f : Nat) : ∀ (kvs : List (Bytes × NBT)) (w : Nat) (acc : List (Bytes × GoVal)),
-    (∀ kv ∈ kvs, kv.1.length < 32768 ∧ ok kv.2) →
-    R (kvs.length + 1 ≤ w ∧ ∀ kv ∈ kvs, cost kv.2 ≤ f)
-      (kvLoop (fun tt tn a => do
-          let v ← unmarshal cx d f c c.zero tt
-          Pure.pure (setMapKV a tn v)) w acc)
-      (encKvs kvs) (kvs.foldl (fun a kv => NBT.mapSet a kv.1 (val kv.2)) acc)
-  | kvs, 0, acc, _ => by
-    unfold kvLoop
-    exact R_fail (by omega) _ _
-  | [], w + 1, acc, _ => R_kvLoop_end _ _ w acc
-  | (k, t) :: kvs, w + 1, acc, h => by
-    have hkt := h (k, t) (List.mem_cons_self)
-    obtain ⟨t0, t1, t2⟩ := tag_not_magic t
-    simp only [encKvs, List.foldl_cons]
-    apply R_kvLoop_entry _ _ w acc (setMapKV acc k (val t)) _ t.tag k (encPayload t) (encKvs kvs) hkt.1 t0 t1 t2
-    · have := hx.reads d f t hkt.2
-      exact R_map (fun v => setMapKV acc k v) (R_mono (fun hc => hc.2 (k, t) (List.mem_cons_self)) this)
-    · exact R_mono (fun hc => ⟨by have := hc.1; simp only [List.length_cons] at this; omega,
-          fun kv hkv => hc.2 kv (List.mem_cons_of_mem _ hkv)⟩)
-        (elem_mapLoop d f kvs w (setMapKV acc k (val t)) (fun kv hkv => h kv (List.mem_cons_of_mem _ hkv)))
-
-/-- `map[string]c` for an element class: closed under maps -/
-theorem elem_map : ElemExact cx (.map c) (okMap ok) (valMap c val) (needMap need) where
-  zeroTy := rfl
-  needPos := by intro t _; cases t <;> simp [needMap]
-  reads := by
-    intro d fuel t hok
-    cases t with
-    | compound kvs =>
-      obtain ⟨hoks, hnd⟩ := hok
-      cases fuel with
-      | zero => unfold unmarshal; exact R_fail (by simp [cost]) _ _
-      | succ f =>
-        rw [show (NBT.compound kvs).tag = 10 from rfl]
-        unfold unmarshal
-        have h10 : (10 : BitVec 8).toNat = 10 := rfl
-        simp only [umMap, h10, encPayload, valMap]
-        have hz : mapEntries (GoType.map c).zero = [] := rfl
-        rw [hz]
-        have := elem_mapLoop hx d f kvs f [] hoks
-        have hfold : kvs.foldl (fun a kv => NBT.mapSet a kv.1 (val kv.2)) [] = kvs.map fun kv => (kv.1, val kv.2) := by
-          have h2 := foldl_mapSet_nodup (kvs.map fun kv => (kv.1, val kv.2)) []
-            (by rw [List.map_map]; exact hnd) (by intro _ _ a ha; cases ha)
-          rw [List.foldl_map] at h2
-          simpa using h2
-        rw [hfold] at this
-        exact R_map (fun kvs' => GoVal.map c false kvs') (R_mono (fun hc => by
-          simp only [cost] at hc
-          exact ⟨by have := length_le_costKvs kvs; omega, fun kv hkv => by have := cost_le_costKvs hkv; omega⟩) this)
-    | _ => exact hok.elim
-  getTag := by
-    intro f t hok hf
-    cases t with
-    | compound kvs =>
-      simp only [needMap] at hf
-      obtain ⟨f', rfl⟩ : ∃ f', f = f' + 1 := ⟨f - 1, by omega⟩
-      rw [show (NBT.compound kvs).tag = 10 from rfl]
-      simp only [valMap, getTagType, tagOfType, GoVal.typeOf]
-    | _ => exact hok.elim
-  marshal := by
-    intro f t hok hf
-    cases t with
-    | compound kvs =>
-      obtain ⟨hoks, hnd⟩ := hok
-      simp only [needMap] at hf
-      obtain ⟨f', rfl⟩ : ∃ f', f = f' + 2 := ⟨f - 2, by omega⟩
-      rw [show (NBT.compound kvs).tag = 10 from rfl]
-      simp only [valMap]
-      have hsl : GoVal.isCarrier (.map c false (kvs.map fun kv => (kv.1, val kv.2))) = false := rfl
-      unfold Go.marshal
-      rw [hsl]
-      simp only [Bool.false_eq_true, if_false]
-      have h10 : (10 : BitVec 8).toNat = 10 := rfl
-      simp only [writeValue, h10]
-      have hm : resMapM (entryEnc (getTagType cx f') (Go.marshal cx f')) (kvs.map fun kv => (kv.1, val kv.2))
-          = Res.ok (kvs.map fun kv => kv.2.tag :: encString kv.1 ++ encPayload kv.2) := by
-        apply resMapM_map_ok
-        intro kv hkv
-        obtain ⟨hk, hokv⟩ := hoks kv hkv
-        have hnt : need kv.2 ≤ f' := by
-          have := le_needMax (need := need) (List.mem_map_of_mem (f := (·.2)) hkv); omega
-        unfold entryEnc
-        have hlen : ¬ kv.1.length > 32767 := by omega
-        have ht0 : ¬ kv.2.tag = 0 := (tag_not_magic kv.2).1
-        simp only [hx.getTag f' kv.2 hokv hnt, hx.marshal f' kv.2 hokv hnt, if_false, writeTag, hlen]
-        rw [if_neg ht0]
-        simp only [encString, beN_eq, List.cons_append, List.append_assoc]
-      rw [hm]
-      simp only [resFlatten, encPayload, encKvs_eq_flatten]
-      rfl
-    | _ => exact hok.elim
-end
 
 /-! ### integers: Go's conversions on the two's-complement pattern -/
 
@@ -1167,6 +940,397 @@ theorem elem_nums_u64 (cx : SnbtCarrier) :
       simp only [numOfElem, unwrapIface, wrapN8_toNat, beN_eq, be64])]
     simp only [resFlatten, beN_eq, List.length_map]
 
+/-! ### base classes: `[n]T` written as typed arrays -/
+
+theorem getTagType_array_cons (cx : SnbtCarrier) (f : Nat) (e : GoType) (x : GoVal) (xs : List GoVal) :
+    getTagType cx (f + 1) (.array e (x :: xs)) =
+      (if (getTagType cx f x).2.isCarrier then (9, .array e (x :: xs))
+       else (arrTag (getTagType cx f x).1, .array e (x :: xs))) := by
+  simp only [getTagType]
+
+theorem writeValue_list_array (cx : SnbtCarrier) (f : Nat) (e : GoType) (x : GoVal) (xs : List GoVal) :
+    writeValue cx (f + 1) (.array e (x :: xs)) 9 =
+      resFlatten (resMapM (elemEnc (getTagType cx f) (Go.marshal cx f) (getTagType cx f x).1) (x :: xs))
+        ((getTagType cx f x).1 :: beN 4 (x :: xs).length ++ ·) := by
+  have h9 : (9 : BitVec 8).toNat = 9 := rfl
+  simp only [writeValue, h9]
+
+def okArrBytesI8 (n : Nat) : NBT → Prop := fun t => ∃ xs, t = .byteArray xs ∧ xs.length = n ∧ n < 2147483648 ∧ ∀ b ∈ xs, True
+def valArrBytesI8 : NBT → GoVal := fun t => match t with
+  | .byteArray xs => .array (.int .i8) (xs.map fun b => GoVal.int .i8 b.toInt)
+  | _ => .array (.int .i8) []
+
+/-- `[n]i8` ↔ TagByteArray -/
+theorem elem_arr_bytes_i8 (cx : SnbtCarrier) (n : Nat) :
+    ElemExact cx (.array n (.int .i8)) (okArrBytesI8 n) valArrBytesI8 (fun _ => 3) where
+  zeroTy := by simp [GoType.zero, GoVal.typeOf]
+  needPos := fun _ _ => by omega
+  reads := by
+    rintro d fuel _ ⟨xs, rfl, hn, hl, _⟩
+    dsimp only [valArrBytesI8]
+    cases fuel with
+    | zero => unfold unmarshal; exact R_fail (by simp [cost]) _ _
+    | succ f =>
+      unfold unmarshal
+      have h7 : (7 : BitVec 8).toNat = 7 := rfl
+      have hbl : isByteLike (.int .i8) = true := rfl
+      simp only [NBT.tag, NBT.tagByteArray, umArray, h7, hbl, encPayload]
+      apply R_bind (R_arrayLen _ _ (by omega))
+      have hfm : ∀ ys : Bytes, List.filterMap (byteElem (.int .i8)) ys = ys.map fun b => GoVal.int .i8 b.toInt := by
+        intro ys
+        induction ys with
+        | nil => rfl
+        | cons x xs ih => simp [byteElem] at ih ⊢; exact ih
+      refine R_enc (List.append_nil xs) (R_bind (R_readFull _ xs) ?_)
+      simp only [hfm, hn, Bool.not_true, Bool.false_eq_true, if_false, ne_eq, not_true_eq_false]
+      exact R_pure _ _
+  getTag := by
+    rintro f _ ⟨xs, rfl, hn, hl, _⟩ hf
+    dsimp only [valArrBytesI8]
+    obtain ⟨f', rfl⟩ : ∃ f', f = f' + 2 := ⟨f - 2, by omega⟩
+    rw [show (NBT.byteArray xs).tag = 7 from rfl]
+    cases xs with
+    | nil => simp [getTagType, tagOfType, arrTag]
+    | cons x xs =>
+      simp only [List.map_cons]
+      rw [getTagType_array_cons]
+      simp [getTagType, tagOfType, GoVal.typeOf, GoVal.isCarrier, GoType.isCarrier, arrTag]
+  marshal := by
+    rintro f _ ⟨xs, rfl, hn, hl, hok⟩ hf
+    dsimp only [valArrBytesI8]
+    obtain ⟨f', rfl⟩ : ∃ f', f = f' + 2 := ⟨f - 2, by omega⟩
+    rw [show (NBT.byteArray xs).tag = 7 from rfl]
+    have h7 : (7 : BitVec 8).toNat = 7 := rfl
+    simp only [Go.marshal, GoVal.isCarrier, GoVal.typeOf, GoType.isCarrier, Bool.false_eq_true, if_false,
+      writeValue, h7, encPayload, beN_eq, List.length_map, List.map_map, Function.comp_def]
+    rw [map_id_of _ (fun b => True) _ xs hok]
+    intro b hb
+    simp only [wrapN1_toInt, BitVec.ofNat_toNat, BitVec.setWidth_eq]
+
+def okArrBytesU8 (n : Nat) : NBT → Prop := fun t => ∃ xs, t = .byteArray xs ∧ xs.length = n ∧ n < 2147483648 ∧ ∀ b ∈ xs, True
+def valArrBytesU8 : NBT → GoVal := fun t => match t with
+  | .byteArray xs => .array (.int .u8) (xs.map fun b => GoVal.int .u8 b.toNat)
+  | _ => .array (.int .u8) []
+
+/-- `[n]u8` ↔ TagByteArray -/
+theorem elem_arr_bytes_u8 (cx : SnbtCarrier) (n : Nat) :
+    ElemExact cx (.array n (.int .u8)) (okArrBytesU8 n) valArrBytesU8 (fun _ => 3) where
+  zeroTy := by simp [GoType.zero, GoVal.typeOf]
+  needPos := fun _ _ => by omega
+  reads := by
+    rintro d fuel _ ⟨xs, rfl, hn, hl, _⟩
+    dsimp only [valArrBytesU8]
+    cases fuel with
+    | zero => unfold unmarshal; exact R_fail (by simp [cost]) _ _
+    | succ f =>
+      unfold unmarshal
+      have h7 : (7 : BitVec 8).toNat = 7 := rfl
+      have hbl : isByteLike (.int .u8) = true := rfl
+      simp only [NBT.tag, NBT.tagByteArray, umArray, h7, hbl, encPayload]
+      apply R_bind (R_arrayLen _ _ (by omega))
+      have hfm : ∀ ys : Bytes, List.filterMap (byteElem (.int .u8)) ys = ys.map fun b => GoVal.int .u8 b.toNat := by
+        intro ys
+        induction ys with
+        | nil => rfl
+        | cons x xs ih => simp [byteElem] at ih ⊢; exact ih
+      refine R_enc (List.append_nil xs) (R_bind (R_readFull _ xs) ?_)
+      simp only [hfm, hn, Bool.not_true, Bool.false_eq_true, if_false, ne_eq, not_true_eq_false]
+      exact R_pure _ _
+  getTag := by
+    rintro f _ ⟨xs, rfl, hn, hl, _⟩ hf
+    dsimp only [valArrBytesU8]
+    obtain ⟨f', rfl⟩ : ∃ f', f = f' + 2 := ⟨f - 2, by omega⟩
+    rw [show (NBT.byteArray xs).tag = 7 from rfl]
+    cases xs with
+    | nil => simp [getTagType, tagOfType, arrTag]
+    | cons x xs =>
+      simp only [List.map_cons]
+      rw [getTagType_array_cons]
+      simp [getTagType, tagOfType, GoVal.typeOf, GoVal.isCarrier, GoType.isCarrier, arrTag]
+  marshal := by
+    rintro f _ ⟨xs, rfl, hn, hl, hok⟩ hf
+    dsimp only [valArrBytesU8]
+    obtain ⟨f', rfl⟩ : ∃ f', f = f' + 2 := ⟨f - 2, by omega⟩
+    rw [show (NBT.byteArray xs).tag = 7 from rfl]
+    have h7 : (7 : BitVec 8).toNat = 7 := rfl
+    simp only [Go.marshal, GoVal.isCarrier, GoVal.typeOf, GoType.isCarrier, Bool.false_eq_true, if_false,
+      writeValue, h7, encPayload, beN_eq, List.length_map, List.map_map, Function.comp_def]
+    rw [map_id_of _ (fun b => True) _ xs hok]
+    intro b hb
+    simp only [wrapN1_toNat, BitVec.ofNat_toNat, BitVec.setWidth_eq]
+
+def okArrBytesBool (n : Nat) : NBT → Prop := fun t => ∃ xs, t = .byteArray xs ∧ xs.length = n ∧ n < 2147483648 ∧ ∀ b ∈ xs, (b = 0 ∨ b = 1)
+def valArrBytesBool : NBT → GoVal := fun t => match t with
+  | .byteArray xs => .array (.bool) (xs.map fun b => GoVal.bool (b != 0))
+  | _ => .array (.bool) []
+
+/-- `[n]bool` ↔ TagByteArray -/
+theorem elem_arr_bytes_bool (cx : SnbtCarrier) (n : Nat) :
+    ElemExact cx (.array n (.bool)) (okArrBytesBool n) valArrBytesBool (fun _ => 3) where
+  zeroTy := by simp [GoType.zero, GoVal.typeOf]
+  needPos := fun _ _ => by omega
+  reads := by
+    rintro d fuel _ ⟨xs, rfl, hn, hl, _⟩
+    dsimp only [valArrBytesBool]
+    cases fuel with
+    | zero => unfold unmarshal; exact R_fail (by simp [cost]) _ _
+    | succ f =>
+      unfold unmarshal
+      have h7 : (7 : BitVec 8).toNat = 7 := rfl
+      have hbl : isByteLike (.bool) = true := rfl
+      simp only [NBT.tag, NBT.tagByteArray, umArray, h7, hbl, encPayload]
+      apply R_bind (R_arrayLen _ _ (by omega))
+      have hfm : ∀ ys : Bytes, List.filterMap (byteElem (.bool)) ys = ys.map fun b => GoVal.bool (b != 0) := by
+        intro ys
+        induction ys with
+        | nil => rfl
+        | cons x xs ih => simp [byteElem] at ih ⊢; exact ih
+      refine R_enc (List.append_nil xs) (R_bind (R_readFull _ xs) ?_)
+      simp only [hfm, hn, Bool.not_true, Bool.false_eq_true, if_false, ne_eq, not_true_eq_false]
+      exact R_pure _ _
+  getTag := by
+    rintro f _ ⟨xs, rfl, hn, hl, _⟩ hf
+    dsimp only [valArrBytesBool]
+    obtain ⟨f', rfl⟩ : ∃ f', f = f' + 2 := ⟨f - 2, by omega⟩
+    rw [show (NBT.byteArray xs).tag = 7 from rfl]
+    cases xs with
+    | nil => simp [getTagType, tagOfType, arrTag]
+    | cons x xs =>
+      simp only [List.map_cons]
+      rw [getTagType_array_cons]
+      simp [getTagType, tagOfType, GoVal.typeOf, GoVal.isCarrier, GoType.isCarrier, arrTag]
+  marshal := by
+    rintro f _ ⟨xs, rfl, hn, hl, hok⟩ hf
+    dsimp only [valArrBytesBool]
+    obtain ⟨f', rfl⟩ : ∃ f', f = f' + 2 := ⟨f - 2, by omega⟩
+    rw [show (NBT.byteArray xs).tag = 7 from rfl]
+    have h7 : (7 : BitVec 8).toNat = 7 := rfl
+    simp only [Go.marshal, GoVal.isCarrier, GoVal.typeOf, GoType.isCarrier, Bool.false_eq_true, if_false,
+      writeValue, h7, encPayload, beN_eq, List.length_map, List.map_map, Function.comp_def]
+    rw [map_id_of _ (fun b => (b = 0 ∨ b = 1)) _ xs hok]
+    intro b hb
+    rcases hb with rfl | rfl <;> rfl
+
+def okArrNumsI32 (n : Nat) : NBT → Prop := fun t => ∃ xs, t = .intArray xs ∧ xs.length = n ∧ n < 2147483648
+def valArrNumsI32 : NBT → GoVal := fun t => match t with
+  | .intArray xs => .array (.int .i32) (xs.map fun b => GoVal.int .i32 b.toInt)
+  | _ => .array (.int .i32) []
+
+/-- `[n]i32` ↔ tagIntArray -/
+theorem elem_arr_nums_i32 (cx : SnbtCarrier) (n : Nat) :
+    ElemExact cx (.array n (.int .i32)) (okArrNumsI32 n) valArrNumsI32 (fun _ => 3) where
+  zeroTy := by simp [GoType.zero, GoVal.typeOf]
+  needPos := fun _ _ => by omega
+  reads := by
+    rintro d fuel _ ⟨xs, rfl, hn, hl⟩
+    dsimp only [valArrNumsI32]
+    cases fuel with
+    | zero => unfold unmarshal; exact R_fail (by simp [cost]) _ _
+    | succ f =>
+      unfold unmarshal
+      have h7 : (11 : BitVec 8).toNat = 11 := rfl
+      have hbl : isIntLike (.int .i32) = true := rfl
+      simp only [NBT.tag, NBT.tagIntArray, umArray, h7, hbl, encPayload]
+      apply R_bind (R_arrayLen _ _ (by omega))
+      have hfm : ∀ ys : List (BitVec 32), List.filterMap (intElem (.int .i32)) ys = ys.map fun b => GoVal.int .i32 b.toInt := by
+        intro ys
+        induction ys with
+        | nil => rfl
+        | cons x xs ih => simp [intElem] at ih ⊢; exact ih
+      simp only [hn, Bool.not_true, Bool.false_eq_true, if_false, ne_eq, not_true_eq_false]
+      rw [← hn]
+      refine R_enc (List.append_nil _) (R_bind (R_readInts _ xs) ?_)
+      simp only [hfm]
+      exact R_pure _ _
+  getTag := by
+    rintro f _ ⟨xs, rfl, hn, hl⟩ hf
+    dsimp only [valArrNumsI32]
+    obtain ⟨f', rfl⟩ : ∃ f', f = f' + 2 := ⟨f - 2, by omega⟩
+    rw [show (NBT.intArray xs).tag = 11 from rfl]
+    cases xs with
+    | nil => simp [getTagType, tagOfType, arrTag]
+    | cons x xs =>
+      simp only [List.map_cons]
+      rw [getTagType_array_cons]
+      simp [getTagType, tagOfType, GoVal.typeOf, GoVal.isCarrier, GoType.isCarrier, arrTag]
+  marshal := by
+    rintro f _ ⟨xs, rfl, hn, hl⟩ hf
+    dsimp only [valArrNumsI32]
+    obtain ⟨f', rfl⟩ : ∃ f', f = f' + 2 := ⟨f - 2, by omega⟩
+    rw [show (NBT.intArray xs).tag = 11 from rfl]
+    have h7 : (11 : BitVec 8).toNat = 11 := rfl
+    simp only [Go.marshal, GoVal.isCarrier, GoVal.typeOf, GoType.isCarrier, Bool.false_eq_true, if_false,
+      writeValue, h7, encPayload]
+    rw [resMapM_map_ok (numOfElem 4) _ be32 xs (by
+      intro b _
+      simp only [numOfElem, unwrapIface, wrapN4_toInt, beN_eq, be32])]
+    simp only [resFlatten, beN_eq, List.length_map]
+
+def okArrNumsU32 (n : Nat) : NBT → Prop := fun t => ∃ xs, t = .intArray xs ∧ xs.length = n ∧ n < 2147483648
+def valArrNumsU32 : NBT → GoVal := fun t => match t with
+  | .intArray xs => .array (.int .u32) (xs.map fun b => GoVal.int .u32 b.toNat)
+  | _ => .array (.int .u32) []
+
+/-- `[n]u32` ↔ tagIntArray -/
+theorem elem_arr_nums_u32 (cx : SnbtCarrier) (n : Nat) :
+    ElemExact cx (.array n (.int .u32)) (okArrNumsU32 n) valArrNumsU32 (fun _ => 3) where
+  zeroTy := by simp [GoType.zero, GoVal.typeOf]
+  needPos := fun _ _ => by omega
+  reads := by
+    rintro d fuel _ ⟨xs, rfl, hn, hl⟩
+    dsimp only [valArrNumsU32]
+    cases fuel with
+    | zero => unfold unmarshal; exact R_fail (by simp [cost]) _ _
+    | succ f =>
+      unfold unmarshal
+      have h7 : (11 : BitVec 8).toNat = 11 := rfl
+      have hbl : isIntLike (.int .u32) = true := rfl
+      simp only [NBT.tag, NBT.tagIntArray, umArray, h7, hbl, encPayload]
+      apply R_bind (R_arrayLen _ _ (by omega))
+      have hfm : ∀ ys : List (BitVec 32), List.filterMap (intElem (.int .u32)) ys = ys.map fun b => GoVal.int .u32 b.toNat := by
+        intro ys
+        induction ys with
+        | nil => rfl
+        | cons x xs ih => simp [intElem] at ih ⊢; exact ih
+      simp only [hn, Bool.not_true, Bool.false_eq_true, if_false, ne_eq, not_true_eq_false]
+      rw [← hn]
+      refine R_enc (List.append_nil _) (R_bind (R_readInts _ xs) ?_)
+      simp only [hfm]
+      exact R_pure _ _
+  getTag := by
+    rintro f _ ⟨xs, rfl, hn, hl⟩ hf
+    dsimp only [valArrNumsU32]
+    obtain ⟨f', rfl⟩ : ∃ f', f = f' + 2 := ⟨f - 2, by omega⟩
+    rw [show (NBT.intArray xs).tag = 11 from rfl]
+    cases xs with
+    | nil => simp [getTagType, tagOfType, arrTag]
+    | cons x xs =>
+      simp only [List.map_cons]
+      rw [getTagType_array_cons]
+      simp [getTagType, tagOfType, GoVal.typeOf, GoVal.isCarrier, GoType.isCarrier, arrTag]
+  marshal := by
+    rintro f _ ⟨xs, rfl, hn, hl⟩ hf
+    dsimp only [valArrNumsU32]
+    obtain ⟨f', rfl⟩ : ∃ f', f = f' + 2 := ⟨f - 2, by omega⟩
+    rw [show (NBT.intArray xs).tag = 11 from rfl]
+    have h7 : (11 : BitVec 8).toNat = 11 := rfl
+    simp only [Go.marshal, GoVal.isCarrier, GoVal.typeOf, GoType.isCarrier, Bool.false_eq_true, if_false,
+      writeValue, h7, encPayload]
+    rw [resMapM_map_ok (numOfElem 4) _ be32 xs (by
+      intro b _
+      simp only [numOfElem, unwrapIface, wrapN4_toNat, beN_eq, be32])]
+    simp only [resFlatten, beN_eq, List.length_map]
+
+def okArrNumsI64 (n : Nat) : NBT → Prop := fun t => ∃ xs, t = .longArray xs ∧ xs.length = n ∧ n < 2147483648
+def valArrNumsI64 : NBT → GoVal := fun t => match t with
+  | .longArray xs => .array (.int .i64) (xs.map fun b => GoVal.int .i64 b.toInt)
+  | _ => .array (.int .i64) []
+
+/-- `[n]i64` ↔ tagLongArray -/
+theorem elem_arr_nums_i64 (cx : SnbtCarrier) (n : Nat) :
+    ElemExact cx (.array n (.int .i64)) (okArrNumsI64 n) valArrNumsI64 (fun _ => 3) where
+  zeroTy := by simp [GoType.zero, GoVal.typeOf]
+  needPos := fun _ _ => by omega
+  reads := by
+    rintro d fuel _ ⟨xs, rfl, hn, hl⟩
+    dsimp only [valArrNumsI64]
+    cases fuel with
+    | zero => unfold unmarshal; exact R_fail (by simp [cost]) _ _
+    | succ f =>
+      unfold unmarshal
+      have h7 : (12 : BitVec 8).toNat = 12 := rfl
+      have hbl : isLongLike (.int .i64) = true := rfl
+      simp only [NBT.tag, NBT.tagLongArray, umArray, h7, hbl, encPayload]
+      apply R_bind (R_arrayLen _ _ (by omega))
+      have hfm : ∀ ys : List (BitVec 64), List.filterMap (longElem (.int .i64)) ys = ys.map fun b => GoVal.int .i64 b.toInt := by
+        intro ys
+        induction ys with
+        | nil => rfl
+        | cons x xs ih => simp [longElem] at ih ⊢; exact ih
+      simp only [hn, Bool.not_true, Bool.false_eq_true, if_false, ne_eq, not_true_eq_false]
+      rw [← hn]
+      refine R_enc (List.append_nil _) (R_bind (R_readLongs _ xs) ?_)
+      simp only [hfm]
+      exact R_pure _ _
+  getTag := by
+    rintro f _ ⟨xs, rfl, hn, hl⟩ hf
+    dsimp only [valArrNumsI64]
+    obtain ⟨f', rfl⟩ : ∃ f', f = f' + 2 := ⟨f - 2, by omega⟩
+    rw [show (NBT.longArray xs).tag = 12 from rfl]
+    cases xs with
+    | nil => simp [getTagType, tagOfType, arrTag]
+    | cons x xs =>
+      simp only [List.map_cons]
+      rw [getTagType_array_cons]
+      simp [getTagType, tagOfType, GoVal.typeOf, GoVal.isCarrier, GoType.isCarrier, arrTag]
+  marshal := by
+    rintro f _ ⟨xs, rfl, hn, hl⟩ hf
+    dsimp only [valArrNumsI64]
+    obtain ⟨f', rfl⟩ : ∃ f', f = f' + 2 := ⟨f - 2, by omega⟩
+    rw [show (NBT.longArray xs).tag = 12 from rfl]
+    have h7 : (12 : BitVec 8).toNat = 12 := rfl
+    simp only [Go.marshal, GoVal.isCarrier, GoVal.typeOf, GoType.isCarrier, Bool.false_eq_true, if_false,
+      writeValue, h7, encPayload]
+    rw [resMapM_map_ok (numOfElem 8) _ be64 xs (by
+      intro b _
+      simp only [numOfElem, unwrapIface, wrapN8_toInt, beN_eq, be64])]
+    simp only [resFlatten, beN_eq, List.length_map]
+
+def okArrNumsU64 (n : Nat) : NBT → Prop := fun t => ∃ xs, t = .longArray xs ∧ xs.length = n ∧ n < 2147483648
+def valArrNumsU64 : NBT → GoVal := fun t => match t with
+  | .longArray xs => .array (.int .u64) (xs.map fun b => GoVal.int .u64 b.toNat)
+  | _ => .array (.int .u64) []
+
+/-- `[n]u64` ↔ tagLongArray -/
+theorem elem_arr_nums_u64 (cx : SnbtCarrier) (n : Nat) :
+    ElemExact cx (.array n (.int .u64)) (okArrNumsU64 n) valArrNumsU64 (fun _ => 3) where
+  zeroTy := by simp [GoType.zero, GoVal.typeOf]
+  needPos := fun _ _ => by omega
+  reads := by
+    rintro d fuel _ ⟨xs, rfl, hn, hl⟩
+    dsimp only [valArrNumsU64]
+    cases fuel with
+    | zero => unfold unmarshal; exact R_fail (by simp [cost]) _ _
+    | succ f =>
+      unfold unmarshal
+      have h7 : (12 : BitVec 8).toNat = 12 := rfl
+      have hbl : isLongLike (.int .u64) = true := rfl
+      simp only [NBT.tag, NBT.tagLongArray, umArray, h7, hbl, encPayload]
+      apply R_bind (R_arrayLen _ _ (by omega))
+      have hfm : ∀ ys : List (BitVec 64), List.filterMap (longElem (.int .u64)) ys = ys.map fun b => GoVal.int .u64 b.toNat := by
+        intro ys
+        induction ys with
+        | nil => rfl
+        | cons x xs ih => simp [longElem] at ih ⊢; exact ih
+      simp only [hn, Bool.not_true, Bool.false_eq_true, if_false, ne_eq, not_true_eq_false]
+      rw [← hn]
+      refine R_enc (List.append_nil _) (R_bind (R_readLongs _ xs) ?_)
+      simp only [hfm]
+      exact R_pure _ _
+  getTag := by
+    rintro f _ ⟨xs, rfl, hn, hl⟩ hf
+    dsimp only [valArrNumsU64]
+    obtain ⟨f', rfl⟩ : ∃ f', f = f' + 2 := ⟨f - 2, by omega⟩
+    rw [show (NBT.longArray xs).tag = 12 from rfl]
+    cases xs with
+    | nil => simp [getTagType, tagOfType, arrTag]
+    | cons x xs =>
+      simp only [List.map_cons]
+      rw [getTagType_array_cons]
+      simp [getTagType, tagOfType, GoVal.typeOf, GoVal.isCarrier, GoType.isCarrier, arrTag]
+  marshal := by
+    rintro f _ ⟨xs, rfl, hn, hl⟩ hf
+    dsimp only [valArrNumsU64]
+    obtain ⟨f', rfl⟩ : ∃ f', f = f' + 2 := ⟨f - 2, by omega⟩
+    rw [show (NBT.longArray xs).tag = 12 from rfl]
+    have h7 : (12 : BitVec 8).toNat = 12 := rfl
+    simp only [Go.marshal, GoVal.isCarrier, GoVal.typeOf, GoType.isCarrier, Bool.false_eq_true, if_false,
+      writeValue, h7, encPayload]
+    rw [resMapM_map_ok (numOfElem 8) _ be64 xs (by
+      intro b _
+      simp only [numOfElem, unwrapIface, wrapN8_toNat, beN_eq, be64])]
+    simp only [resFlatten, beN_eq, List.length_map]
+
 /-! ### carriers as element classes -/
 
 theorem CarrierExact.toElem {cx : SnbtCarrier} {c : GoType} {ok : NBT → Prop} {val : NBT → GoVal}
@@ -1187,484 +1351,5 @@ def okRaw : NBT → Prop := fun t => t.WF ∧ S15 t
 def valRaw : NBT → GoVal := fun t => .raw t.tag (encPayload t)
 def okDyn : NBT → Prop := fun t => t.WF ∧ GoMC.Lemmas.DynBT.Small t
 def valDyn : NBT → GoVal := fun t => .dyn (GoMC.Lemmas.DynBT.toVal t)
-
-/-! ### structs with a flat field table -/
-
-/-- a field of a flat struct: its name in the field table, its type, and the element class of that type -/
-structure FSpec where
-  name : Bytes
-  ty : GoType
-  ok : NBT → Prop
-  val : NBT → GoVal
-  need : NBT → Nat
-
-/-- the entries of the compound, in the order of the fields: one per field, under the field's name -/
-def okFields : List FSpec → List (Bytes × NBT) → Prop
-  | [], [] => True
-  | sp :: sps, (k, t) :: kvs => k = sp.name ∧ sp.ok t ∧ okFields sps kvs
-  | _, _ => False
-
-def valFields : List FSpec → List (Bytes × NBT) → List GoVal
-  | sp :: sps, (_, t) :: kvs => sp.val t :: valFields sps kvs
-  | _, _ => []
-
-def needFields : List FSpec → List (Bytes × NBT) → Nat
-  | sp :: sps, (_, t) :: kvs => max (sp.need t) (needFields sps kvs)
-  | _, _ => 0
-
-def okStruct (sps : List FSpec) : NBT → Prop
-  | .compound kvs => okFields sps kvs
-  | _ => False
-
-def valStruct (n : Bytes) (fields : List (FieldInfo × GoType)) (sps : List FSpec) : NBT → GoVal
-  | .compound kvs => .struct n fields (valFields sps kvs)
-  | _ => .struct n fields []
-
-def needStruct (sps : List FSpec) : NBT → Nat
-  | .compound kvs => needFields sps kvs + 2
-  | _ => 2
-
-/-- The field table (`flds`, from position `k` on) of a struct type with the declared fields `fields` is flat:
-entry `k` is declared field `k` itself (index path `[k]`, no `omitempty`, no `,list`), found by its name. -/
-inductive Shape (look : Bytes → Option Nat) : Nat → List Fld → List (FieldInfo × GoType) → List FSpec → Prop
-  | nil (k : Nat) : Shape look k [] [] []
-  | cons {k : Nat} {fld : Fld} {flds : List Fld} {info : FieldInfo} {c : GoType} {fields : List (FieldInfo × GoType)}
-      {sp : FSpec} {sps : List FSpec} :
-      sp.ty = c → look sp.name = some k → fld.name = sp.name → fld.index = [k] → fld.omitEmpty = false → fld.asList = false →
-      sp.name.length < 32768 → Shape look (k + 1) flds fields sps →
-      Shape look k (fld :: flds) ((info, c) :: fields) (sp :: sps)
-
-/-- discharges `Shape` for a concrete struct type once `typeFields` of it has been evaluated -/
-macro "flat_shape" : tactic =>
-  `(tactic| repeat' (first | exact Shape.nil _ | rfl | decide | refine Shape.cons ?_ ?_ ?_ ?_ ?_ ?_ ?_ ?_))
-
-theorem getElem?_append_length {α : Type} (pre : List α) (x : α) (post : List α) :
-    (pre ++ x :: post)[pre.length]? = some x := by simp
-
-theorem set_append_length {α : Type} (pre : List α) (x r : α) (post : List α) :
-    (pre ++ x :: post).set pre.length r = pre ++ r :: post := by simp
-
-/-- one known key decoded into its (still zero) field -/
-theorem R_structStep (cx : SnbtCarrier) (d : Bool) (f : Nat) (flds fldsDone fldsRem : List Fld) (fld : Fld)
-    (n : Bytes) (fdone frem : List (FieldInfo × GoType)) (info : FieldInfo) (sp : FSpec)
-    (pre zs : List GoVal) (t : NBT)
-    (hx : ElemExact cx sp.ty sp.ok sp.val sp.need) (hok : sp.ok t)
-    (hflds : flds = fldsDone ++ fld :: fldsRem) (hk1 : fldsDone.length = pre.length) (hk2 : fdone.length = pre.length)
-    (hlook : lookupField flds sp.name = some pre.length) (hidx : fld.index = [pre.length]) :
-    R (cost t ≤ f) (structStep (unmarshal cx d f) d f flds t.tag sp.name
-        (.struct n (fdone ++ (info, sp.ty) :: frem) (pre ++ sp.ty.zero :: zs)))
-      (encPayload t) (.struct n (fdone ++ (info, sp.ty) :: frem) (pre ++ sp.val t :: zs)) := by
-  have hf : flds[pre.length]? = some fld := by rw [hflds, ← hk1]; exact getElem?_append_length _ _ _
-  have h1 : (pre ++ sp.ty.zero :: zs)[pre.length]? = some sp.ty.zero := getElem?_append_length _ _ _
-  have h2 : (fdone ++ (info, sp.ty) :: frem)[pre.length]? = some (info, sp.ty) := by
-    rw [← hk2]; exact getElem?_append_length _ _ _
-  simp only [structStep, hlook, hf, hidx, updAt, updField, h1, h2]
-  rw [hx.zeroTy]
-  simp only [set_append_length]
-  exact R_map (fun r => GoVal.struct n (fdone ++ (info, sp.ty) :: frem) (pre ++ r :: zs)) (hx.reads d f t hok)
-
-/-- the loop of the struct branch over the remaining entries, the fields before them already decoded -/
-theorem R_structLoop (cx : SnbtCarrier) (d : Bool) (f : Nat) (flds : List Fld) (n : Bytes) :
-    ∀ (sps : List FSpec) (fldsRem : List Fld) (frem : List (FieldInfo × GoType)) (fldsDone : List Fld)
-      (fdone : List (FieldInfo × GoType)) (pre : List GoVal) (kvs : List (Bytes × NBT)) (w : Nat),
-    Shape (lookupField flds) pre.length fldsRem frem sps →
-    (∀ sp ∈ sps, ElemExact cx sp.ty sp.ok sp.val sp.need) →
-    flds = fldsDone ++ fldsRem → fldsDone.length = pre.length → fdone.length = pre.length →
-    okFields sps kvs →
-    R (kvs.length + 1 ≤ w ∧ ∀ kv ∈ kvs, cost kv.2 ≤ f)
-      (kvLoop (structStep (unmarshal cx d f) d f flds) w (.struct n (fdone ++ frem) (pre ++ GoType.zeroFields frem)))
-      (encKvs kvs) (.struct n (fdone ++ frem) (pre ++ valFields sps kvs))
-  | sps, fldsRem, frem, fldsDone, fdone, pre, kvs, 0, _, _, _, _, _, _ => by
-    unfold kvLoop
-    exact R_fail (by omega) _ _
-  | [], _, _, fldsDone, fdone, pre, kvs, w + 1, hsh, _, _, _, _, hok => by
-    cases hsh
-    cases kvs with
-    | nil => exact R_kvLoop_end _ _ w _
-    | cons kv kvs => exact hok.elim
-  | sp :: sps, _, _, fldsDone, fdone, pre, kvs, w + 1, hsh, hel, hflds, hk1, hk2, hok => by
-    cases hsh with
-    | @cons _ fld fldsRem info c frem _ _ hty hlook hname hidx _ _ hlen hrest =>
-    subst hty
-    cases kvs with
-    | nil => exact hok.elim
-    | cons kv kvs =>
-      obtain ⟨k, t⟩ := kv
-      obtain ⟨rfl, hokt, hoks⟩ := hok
-      obtain ⟨t0, t1, t2⟩ := tag_not_magic t
-      simp only [encKvs, valFields, GoType.zeroFields]
-      apply R_kvLoop_entry _ _ w _ (.struct n (fdone ++ (info, sp.ty) :: frem) (pre ++ sp.val t :: GoType.zeroFields frem))
-        _ t.tag sp.name (encPayload t) (encKvs kvs) hlen t0 t1 t2
-      · exact R_mono (fun hc => hc.2 (sp.name, t) List.mem_cons_self)
-          (R_structStep cx d f flds fldsDone fldsRem fld n fdone frem info sp pre _ t
-            (hel sp List.mem_cons_self) hokt hflds hk1 hk2 hlook hidx)
-      · have := R_structLoop cx d f flds n sps fldsRem frem (fldsDone ++ [fld]) (fdone ++ [(info, sp.ty)])
-          (pre ++ [sp.val t]) kvs w (by simpa using hrest) (fun sp' h' => hel sp' (List.mem_cons_of_mem _ h'))
-          (by simp [hflds]) (by simp [hk1]) (by simp [hk2]) hoks
-        simp only [List.append_assoc, List.singleton_append] at this
-        exact R_mono (fun hc => ⟨by have := hc.1; simp only [List.length_cons] at this; omega,
-          fun kv hkv => hc.2 kv (List.mem_cons_of_mem _ hkv)⟩) this
-
-/-- the struct loop of `writeValue`, from field `vdone.length` on -/
-theorem fieldsEnc_ok (cx : SnbtCarrier) (f : Nat) (look : Bytes → Option Nat) (n : Bytes)
-    (fields : List (FieldInfo × GoType)) (allvals : List GoVal) :
-    ∀ (sps : List FSpec) (fldsRem : List Fld) (frem : List (FieldInfo × GoType)) (vdone : List GoVal)
-      (kvs : List (Bytes × NBT)),
-    Shape look vdone.length fldsRem frem sps →
-    (∀ sp ∈ sps, ElemExact cx sp.ty sp.ok sp.val sp.need) →
-    okFields sps kvs → needFields sps kvs ≤ f → allvals = vdone ++ valFields sps kvs →
-    resMapM (fieldEnc (getTagType cx f) (Go.marshal cx f) (.struct n fields allvals)) fldsRem =
-      Res.ok (kvs.map fun kv => kv.2.tag :: encString kv.1 ++ encPayload kv.2)
-  | [], _, _, vdone, kvs, hsh, _, hok, _, _ => by
-    cases hsh
-    cases kvs with
-    | nil => rfl
-    | cons kv kvs => exact hok.elim
-  | sp :: sps, _, _, vdone, kvs, hsh, hel, hok, hneed, hall => by
-    cases hsh with
-    | @cons _ fld fldsRem info c frem _ _ hty hlook hname hidx hoe hal hlen hrest =>
-    subst hty
-    cases kvs with
-    | nil => exact hok.elim
-    | cons kv kvs =>
-      obtain ⟨k, t⟩ := kv
-      obtain ⟨rfl, hokt, hoks⟩ := hok
-      simp only [needFields] at hneed
-      simp only [valFields] at hall
-      have hx := hel sp List.mem_cons_self
-      have hw : walkEnc fld.index (.struct n fields allvals) = some (sp.val t) := by
-        rw [hidx, hall]
-        simp only [walkEnc, getElem?_append_length, Option.bind_some]
-      have ht0 : ¬ t.tag = 0 := (tag_not_magic t).1
-      have hl : ¬ sp.name.length > 32767 := by omega
-      have h1 : fieldEnc (getTagType cx f) (Go.marshal cx f) (.struct n fields allvals) fld =
-          Res.ok (t.tag :: encString sp.name ++ encPayload t) := by
-        simp only [fieldEnc, hw, hoe, hal, Bool.false_and, Bool.false_eq_true, if_false,
-          hx.getTag f t hokt (by omega), hx.marshal f t hokt (by omega), writeTag, hname, ht0, hl]
-        simp only [encString, beN_eq, List.cons_append, List.append_assoc]
-      have h2 := fieldsEnc_ok cx f look n fields allvals sps fldsRem frem (vdone ++ [sp.val t]) kvs
-        (by simpa using hrest) (fun sp' h' => hel sp' (List.mem_cons_of_mem _ h')) hoks (by omega)
-        (by simp [hall])
-      unfold resMapM
-      rw [h1, h2]
-      rfl
-
-/-- a struct type with a flat field table whose field types are element classes is an element class -/
-theorem elem_struct (cx : SnbtCarrier) (n : Bytes) (fields : List (FieldInfo × GoType)) (sps : List FSpec)
-    (hsh : Shape (lookupField (typeFields (.struct n fields))) 0 (typeFields (.struct n fields)) fields sps)
-    (hel : ∀ sp ∈ sps, ElemExact cx sp.ty sp.ok sp.val sp.need) :
-    ElemExact cx (.struct n fields) (okStruct sps) (valStruct n fields sps) (needStruct sps) where
-  zeroTy := rfl
-  needPos := by intro t _; cases t <;> simp [needStruct]
-  reads := by
-    intro d fuel t hok
-    cases t with
-    | compound kvs =>
-      cases fuel with
-      | zero => unfold unmarshal; exact R_fail (by simp [cost]) _ _
-      | succ f =>
-        rw [show (NBT.compound kvs).tag = 10 from rfl]
-        unfold unmarshal
-        have h10 : (10 : BitVec 8).toNat = 10 := rfl
-        simp only [umStruct, h10, encPayload, valStruct]
-        have hz : structOr (.struct n fields) (GoType.struct n fields).zero = .struct n fields (GoType.zeroFields fields) := by
-          simp [structOr, GoType.zero]
-        rw [hz]
-        have := R_structLoop cx d f (typeFields (.struct n fields)) n sps (typeFields (.struct n fields)) fields [] [] []
-          kvs f hsh hel rfl rfl rfl hok
-        simp only [List.nil_append] at this
-        exact R_mono (fun hc => by
-          simp only [cost] at hc
-          exact ⟨by have := length_le_costKvs kvs; omega, fun kv hkv => by have := cost_le_costKvs hkv; omega⟩) this
-    | _ => exact hok.elim
-  getTag := by
-    intro f t hok hf
-    cases t with
-    | compound kvs =>
-      simp only [needStruct] at hf
-      obtain ⟨f', rfl⟩ : ∃ f', f = f' + 1 := ⟨f - 1, by omega⟩
-      rw [show (NBT.compound kvs).tag = 10 from rfl]
-      simp only [valStruct, getTagType, tagOfType, GoVal.typeOf]
-    | _ => exact hok.elim
-  marshal := by
-    intro f t hok hf
-    cases t with
-    | compound kvs =>
-      simp only [needStruct] at hf
-      obtain ⟨f', rfl⟩ : ∃ f', f = f' + 2 := ⟨f - 2, by omega⟩
-      rw [show (NBT.compound kvs).tag = 10 from rfl]
-      simp only [valStruct]
-      have hsl : GoVal.isCarrier (.struct n fields (valFields sps kvs)) = false := rfl
-      unfold Go.marshal
-      rw [hsl]
-      simp only [Bool.false_eq_true, if_false]
-      have h10 : (10 : BitVec 8).toNat = 10 := rfl
-      simp only [writeValue, h10]
-      rw [fieldsEnc_ok cx f' _ n fields (valFields sps kvs) sps _ fields [] kvs hsh hel hok (by omega) (by simp)]
-      simp only [resFlatten, encPayload, encKvs_eq_flatten]
-      rfl
-    | _ => exact hok.elim
-
-/-! ### the plain fragment of the type universe -/
-
-/-- `Plain τ ok val need`: `τ` is a type of the plain fragment — scalars of a fixed size, strings, typed arrays,
-`nbt.RawMessage`, `dynbt.Value`, and slices, string-keyed maps and flat structs of these, nested to any depth —, `ok` the
-trees a fresh variable of type `τ` stands for, `val t` the Go value for the tree `t`. -/
-inductive Plain : GoType → (NBT → Prop) → (NBT → GoVal) → (NBT → Nat) → Prop
-  | i8 : Plain (.int .i8) okI8 valI8 (fun _ => 2)
-  | u8 : Plain (.int .u8) okU8 valU8 (fun _ => 2)
-  | i16 : Plain (.int .i16) okI16 valI16 (fun _ => 2)
-  | u16 : Plain (.int .u16) okU16 valU16 (fun _ => 2)
-  | i32 : Plain (.int .i32) okI32 valI32 (fun _ => 2)
-  | u32 : Plain (.int .u32) okU32 valU32 (fun _ => 2)
-  | i64 : Plain (.int .i64) okI64 valI64 (fun _ => 2)
-  | u64 : Plain (.int .u64) okU64 valU64 (fun _ => 2)
-  | bool : Plain (.bool) okBool valBool (fun _ => 2)
-  | f32 : Plain (.f32) okF32 valF32 (fun _ => 2)
-  | f64 : Plain (.f64) okF64 valF64 (fun _ => 2)
-  | str : Plain (.str) okStr valStr (fun _ => 2)
-  | bytes_i8 : Plain (.slice (.int .i8)) okBytesI8 valBytesI8 (fun _ => 3)
-  | bytes_u8 : Plain (.slice (.int .u8)) okBytesU8 valBytesU8 (fun _ => 3)
-  | bytes_bool : Plain (.slice (.bool)) okBytesBool valBytesBool (fun _ => 3)
-  | nums_i32 : Plain (.slice (.int .i32)) okNumsI32 valNumsI32 (fun _ => 3)
-  | nums_u32 : Plain (.slice (.int .u32)) okNumsU32 valNumsU32 (fun _ => 3)
-  | nums_i64 : Plain (.slice (.int .i64)) okNumsI64 valNumsI64 (fun _ => 3)
-  | nums_u64 : Plain (.slice (.int .u64)) okNumsU64 valNumsU64 (fun _ => 3)
-  | raw : Plain .raw okRaw valRaw (fun _ => 1)
-  | dyn : Plain .dyn okDyn valDyn (fun _ => 1)
-  /-- `[]c` written as a TagList: every `c` but the elements of the typed arrays -/
-  | slice {c ok val need} : Plain c ok val need → arrTag (tagOfType c) = 9 →
-      Plain (.slice c) (okSlice c ok) (valSlice c val) (needSlice need)
-  | map {c ok val need} : Plain c ok val need → Plain (.map c) (okMap ok) (valMap c val) (needMap need)
-  /-- a struct type whose field table is flat (`Shape`: every declared field is one entry, in order, without
-  `omitempty` / `,list`; names — from tags or not — found by `lookupField`), with fields of the fragment -/
-  | struct (n : Bytes) (fields : List (FieldInfo × GoType)) (sps : List FSpec) :
-      Shape (lookupField (typeFields (.struct n fields))) 0 (typeFields (.struct n fields)) fields sps →
-      (∀ sp ∈ sps, Plain sp.ty sp.ok sp.val sp.need) →
-      Plain (.struct n fields) (okStruct sps) (valStruct n fields sps) (needStruct sps)
-
-theorem encFuelList_map_le {need : NBT → Nat} {val : NBT → GoVal} :
-    ∀ ts : List NBT, (∀ t ∈ ts, need t ≤ (val t).encFuel) → needMax need ts ≤ GoVal.encFuelList (ts.map val)
-  | [], _ => Nat.le_refl 0
-  | t :: ts, h => by
-    have h1 := h t List.mem_cons_self
-    have h2 := encFuelList_map_le ts (fun t' ht' => h t' (List.mem_cons_of_mem _ ht'))
-    simp only [needMax, List.map_cons, GoVal.encFuelList]
-    omega
-
-theorem encFuelKvs_map_le {need : NBT → Nat} {val : NBT → GoVal} :
-    ∀ kvs : List (Bytes × NBT), (∀ kv ∈ kvs, need kv.2 ≤ (val kv.2).encFuel) →
-      needMax need (kvs.map (·.2)) ≤ GoVal.encFuelKvs (kvs.map fun kv => (kv.1, val kv.2))
-  | [], _ => Nat.le_refl 0
-  | (k, t) :: kvs, h => by
-    have h1 := h (k, t) List.mem_cons_self
-    have h2 := encFuelKvs_map_le kvs (fun t' ht' => h t' (List.mem_cons_of_mem _ ht'))
-    simp only [needMax, List.map_cons, GoVal.encFuelKvs]
-    simp only at h1
-    omega
-
-theorem needFields_le_encFuel : ∀ (sps : List FSpec) (kvs : List (Bytes × NBT)),
-    (∀ sp ∈ sps, ∀ t, sp.ok t → sp.need t ≤ (sp.val t).encFuel) → okFields sps kvs →
-    needFields sps kvs ≤ GoVal.encFuelList (valFields sps kvs)
-  | [], [], _, _ => Nat.le_refl 0
-  | [], _ :: _, _, h => h.elim
-  | _ :: _, [], _, h => h.elim
-  | sp :: sps, (k, t) :: kvs, hf, hok => by
-    have h1 := hf sp List.mem_cons_self t hok.2.1
-    have h2 := needFields_le_encFuel sps kvs (fun sp' h' => hf sp' (List.mem_cons_of_mem _ h')) hok.2.2
-    simp only [needFields, valFields, GoVal.encFuelList]
-    omega
-
-/-- every type of the plain fragment is an exact element class; its trees have the tag the type announces (or the
-value is a carrier), and the fuel `Encode` provides suffices -/
-theorem plain_exact (cx : SnbtCarrier) {c : GoType} {ok : NBT → Prop} {val : NBT → GoVal} {need : NBT → Nat}
-    (h : Plain c ok val need) :
-    ElemExact cx c ok val need ∧
-    (∀ t, ok t → (val t).isCarrier = true ∨ arrTag t.tag = arrTag (tagOfType c)) ∧
-    (∀ t, ok t → need t ≤ (val t).encFuel) := by
-  induction h with
-  | i8 => exact ⟨elem_i8 cx, by rintro _ ⟨v, rfl⟩ <;> exact Or.inr rfl, by rintro _ ⟨v, rfl⟩ <;> simp [valI8, GoVal.encFuel]⟩
-  | u8 => exact ⟨elem_u8 cx, by rintro _ ⟨v, rfl⟩ <;> exact Or.inr rfl, by rintro _ ⟨v, rfl⟩ <;> simp [valU8, GoVal.encFuel]⟩
-  | i16 => exact ⟨elem_i16 cx, by rintro _ ⟨v, rfl⟩ <;> exact Or.inr rfl, by rintro _ ⟨v, rfl⟩ <;> simp [valI16, GoVal.encFuel]⟩
-  | u16 => exact ⟨elem_u16 cx, by rintro _ ⟨v, rfl⟩ <;> exact Or.inr rfl, by rintro _ ⟨v, rfl⟩ <;> simp [valU16, GoVal.encFuel]⟩
-  | i32 => exact ⟨elem_i32 cx, by rintro _ ⟨v, rfl⟩ <;> exact Or.inr rfl, by rintro _ ⟨v, rfl⟩ <;> simp [valI32, GoVal.encFuel]⟩
-  | u32 => exact ⟨elem_u32 cx, by rintro _ ⟨v, rfl⟩ <;> exact Or.inr rfl, by rintro _ ⟨v, rfl⟩ <;> simp [valU32, GoVal.encFuel]⟩
-  | i64 => exact ⟨elem_i64 cx, by rintro _ ⟨v, rfl⟩ <;> exact Or.inr rfl, by rintro _ ⟨v, rfl⟩ <;> simp [valI64, GoVal.encFuel]⟩
-  | u64 => exact ⟨elem_u64 cx, by rintro _ ⟨v, rfl⟩ <;> exact Or.inr rfl, by rintro _ ⟨v, rfl⟩ <;> simp [valU64, GoVal.encFuel]⟩
-  | bool => exact ⟨elem_bool cx, by rintro _ (rfl | rfl) <;> exact Or.inr rfl, by rintro _ (rfl | rfl) <;> simp [valBool, GoVal.encFuel]⟩
-  | f32 => exact ⟨elem_f32 cx, by rintro _ ⟨v, rfl⟩ <;> exact Or.inr rfl, by rintro _ ⟨v, rfl⟩ <;> simp [valF32, GoVal.encFuel]⟩
-  | f64 => exact ⟨elem_f64 cx, by rintro _ ⟨v, rfl⟩ <;> exact Or.inr rfl, by rintro _ ⟨v, rfl⟩ <;> simp [valF64, GoVal.encFuel]⟩
-  | str => exact ⟨elem_str cx, by rintro _ ⟨v, rfl, hs⟩ <;> exact Or.inr rfl, by rintro _ ⟨v, rfl, hs⟩ <;> simp [valStr, GoVal.encFuel]⟩
-  | bytes_i8 => exact ⟨elem_bytes_i8 cx, by rintro _ ⟨xs, rfl, hl, hb⟩ <;> exact Or.inr rfl, by rintro _ ⟨xs, rfl, hl, hb⟩ <;> simp [valBytesI8, GoVal.encFuel]⟩
-  | bytes_u8 => exact ⟨elem_bytes_u8 cx, by rintro _ ⟨xs, rfl, hl, hb⟩ <;> exact Or.inr rfl, by rintro _ ⟨xs, rfl, hl, hb⟩ <;> simp [valBytesU8, GoVal.encFuel]⟩
-  | bytes_bool => exact ⟨elem_bytes_bool cx, by rintro _ ⟨xs, rfl, hl, hb⟩ <;> exact Or.inr rfl, by rintro _ ⟨xs, rfl, hl, hb⟩ <;> simp [valBytesBool, GoVal.encFuel]⟩
-  | nums_i32 => exact ⟨elem_nums_i32 cx, by rintro _ ⟨xs, rfl, hl⟩ <;> exact Or.inr rfl, by rintro _ ⟨xs, rfl, hl⟩ <;> simp [valNumsI32, GoVal.encFuel]⟩
-  | nums_u32 => exact ⟨elem_nums_u32 cx, by rintro _ ⟨xs, rfl, hl⟩ <;> exact Or.inr rfl, by rintro _ ⟨xs, rfl, hl⟩ <;> simp [valNumsU32, GoVal.encFuel]⟩
-  | nums_i64 => exact ⟨elem_nums_i64 cx, by rintro _ ⟨xs, rfl, hl⟩ <;> exact Or.inr rfl, by rintro _ ⟨xs, rfl, hl⟩ <;> simp [valNumsI64, GoVal.encFuel]⟩
-  | nums_u64 => exact ⟨elem_nums_u64 cx, by rintro _ ⟨xs, rfl, hl⟩ <;> exact Or.inr rfl, by rintro _ ⟨xs, rfl, hl⟩ <;> simp [valNumsU64, GoVal.encFuel]⟩
-  | raw => exact ⟨(rawExact cx).toElem, fun _ _ => Or.inl rfl, fun _ _ => by simp [valRaw, GoVal.encFuel]⟩
-  | dyn => exact ⟨(dynExact cx).toElem, fun _ _ => Or.inl rfl, fun _ _ => by simp [valDyn, GoVal.encFuel]⟩
-  | @slice c ok val need _ hstat ih =>
-    obtain ⟨hx, htag, hfuel⟩ := ih
-    refine ⟨elem_slice hx (fun t ht => (htag t ht).imp id (fun h => h.trans hstat)) hstat, ?_, ?_⟩
-    · intro t ht
-      cases t with
-      | list e ts => exact Or.inr rfl
-      | _ => exact ht.elim
-    · intro t ht
-      cases t with
-      | list e ts =>
-        have := encFuelList_map_le (need := need) (val := val) ts (fun t' ht' => hfuel t' (ht.2.1 t' ht'))
-        simp only [needSlice, valSlice, GoVal.encFuel]
-        omega
-      | _ => exact ht.elim
-  | @map c ok val need _ ih =>
-    obtain ⟨hx, htag, hfuel⟩ := ih
-    refine ⟨elem_map hx, ?_, ?_⟩
-    · intro t ht
-      cases t with
-      | compound kvs => exact Or.inr rfl
-      | _ => exact ht.elim
-    · intro t ht
-      cases t with
-      | compound kvs =>
-        have := encFuelKvs_map_le (need := need) (val := val) kvs (fun kv hkv => hfuel kv.2 (ht.1 kv hkv).2)
-        simp only [needMap, valMap, GoVal.encFuel]
-        omega
-      | _ => exact ht.elim
-  | struct n fields sps hsh _ ih =>
-    refine ⟨elem_struct cx n fields sps hsh (fun sp h => (ih sp h).1), ?_, ?_⟩
-    · intro t ht
-      cases t with
-      | compound kvs => exact Or.inr rfl
-      | _ => exact ht.elim
-    · intro t ht
-      cases t with
-      | compound kvs =>
-        have := needFields_le_encFuel sps kvs (fun sp h => (ih sp h).2.2) ht
-        simp only [needStruct, valStruct, GoVal.encFuel]
-        omega
-      | _ => exact ht.elim
-
-/-! ### whole documents -/
-
-/-- `Encode(val t, name)` writes the document `name : t` -/
-theorem elem_root_enc {cx : SnbtCarrier} {c : GoType} {ok : NBT → Prop} {val : NBT → GoVal} {need : NBT → Nat}
-    (hx : ElemExact cx c ok val need) (f : Nat) (fmt : Format) (name : Bytes) (t : NBT) (hn : name.length < 32768)
-    (hok : ok t) (hf : need t ≤ f) :
-    encodeF cx f (isNet fmt) name (some (val t)) = Res.ok (encDoc fmt name t) := by
-  unfold encodeF
-  simp only [hx.getTag f t hok hf, hx.marshal f t hok hf]
-  cases fmt with
-  | file =>
-    simp only [isNet, Bool.false_eq_true, if_false, writeTag]
-    rw [if_neg (by omega)]
-    simp only [encDoc, encString, beN_eq, List.cons_append, List.append_assoc]
-  | network =>
-    simp only [isNet, if_true, encDoc, List.cons_append, List.nil_append]
-
-/-- `Decode(&v)` with a fresh `v` of type `c`, on the document `name : t` followed by anything: `val t`, the root
-name, and exactly the document consumed -/
-theorem elem_root_dec {cx : SnbtCarrier} {c : GoType} {ok : NBT → Prop} {val : NBT → GoVal} {need : NBT → Nat}
-    (hx : ElemExact cx c ok val need) (d : Bool) (fmt : Format) (name : Bytes) (t : NBT) (hn : name.length < 32768)
-    (hok : ok t) (s : Stream) (rest : Bytes) (hs : s.flat = encDoc fmt name t ++ rest) :
-    ∃ s', decodeTyped cx (isNet fmt) d c s = (Res.ok (val t, docName fmt name), s') ∧ s'.flat = rest ∧
-      s'.failing = s.failing :=
-  decodeTyped_of_R cx d fmt name t c (val t) (fun f => cost t ≤ f + 1) hn
-    (fun f => hx.reads d (f + 1) t hok) (fun f hf => by have := cost_le t; omega) s rest hs
-
-/-- The round trip on the plain fragment, both halves against the format: encoding the value of a tree writes the
-document of that tree, and decoding that document (followed by anything) into a fresh variable gives the value
-back, with the root name, consuming exactly the document. -/
-theorem plain_roundtrip (cx : SnbtCarrier) {c : GoType} {ok : NBT → Prop} {val : NBT → GoVal} {need : NBT → Nat}
-    (h : Plain c ok val need) (d : Bool) (fmt : Format) (name : Bytes) (t : NBT) (hn : name.length < 32768) (hok : ok t) :
-    encode cx (isNet fmt) name (some (val t)) = Res.ok (encDoc fmt name t) ∧
-    ∀ (s : Stream) (rest : Bytes), s.flat = encDoc fmt name t ++ rest →
-      ∃ s', decodeTyped cx (isNet fmt) d c s = (Res.ok (val t, docName fmt name), s') ∧ s'.flat = rest ∧
-        s'.failing = s.failing := by
-  obtain ⟨hx, _, hfuel⟩ := plain_exact cx h
-  refine ⟨?_, fun s rest hs => elem_root_dec hx d fmt name t hn hok s rest hs⟩
-  unfold encode
-  exact elem_root_enc hx _ fmt name t hn hok (by have := hfuel t hok; simp only; omega)
-
-/-- non-vacuity: `map[string][][]int32`, `[]nbt.RawMessage` and `map[string][]string` are in the fragment -/
-example : ∃ ok val need, Plain (.map (.slice (.slice (.int .i32)))) ok val need := ⟨_, _, _, .map (.slice .nums_i32 rfl)⟩
-example : ∃ ok val need, Plain (.slice .raw) ok val need := ⟨_, _, _, .slice .raw rfl⟩
-example : ∃ ok val need, Plain (.map (.slice .str)) ok val need := ⟨_, _, _, .map (.slice .str rfl)⟩
-
-/-- … and the class of `[]string` contains the list of "a" and "" -/
-example : okSlice .str okStr (.list 8 [.string [97], .string []]) := by
-  refine ⟨by simp [NBT.WF, NBT.WFList, NBT.tag, NBT.tagString, NBT.tagEnd], ?_, by intro h; cases h⟩
-  intro t ht
-  simp only [List.mem_cons, List.not_mem_nil, or_false] at ht
-  rcases ht with rfl | rfl
-  · exact ⟨_, rfl, by decide⟩
-  · exact ⟨_, rfl, by decide⟩
-
-/-! ### an instance: `type Ex struct { A int32 `nbt:"a"`; B []string; In struct { X, Y float64 } `nbt:"in"`;
-M map[string][]int64 }` is in the fragment -/
-
-def exInnerFields : List (FieldInfo × GoType) := [
-  ({ name := [88], anonymous := false, exported := true }, .f64),
-  ({ name := [89], anonymous := false, exported := true }, .f64)]
-def exInnerSpecs : List FSpec := [⟨[88], .f64, okF64, valF64, fun _ => 2⟩, ⟨[89], .f64, okF64, valF64, fun _ => 2⟩]
-
-theorem exInner_plain : Plain (.struct [] exInnerFields) (okStruct exInnerSpecs) (valStruct [] exInnerFields exInnerSpecs)
-    (needStruct exInnerSpecs) := by
-  refine .struct [] exInnerFields exInnerSpecs ?_ ?_
-  · have htf : typeFields (.struct [] exInnerFields) =
-        [⟨[88], false, [0], .f64, false, false⟩, ⟨[89], false, [1], .f64, false, false⟩] := by rfl
-    rw [htf]
-    simp only [exInnerFields, exInnerSpecs]
-    flat_shape
-  · intro sp h
-    simp only [exInnerSpecs, List.mem_cons, List.not_mem_nil, or_false] at h
-    rcases h with rfl | rfl <;> exact .f64
-
-def exFields : List (FieldInfo × GoType) := [
-  ({ name := [65], anonymous := false, exported := true, nbt := [97] }, .int .i32),
-  ({ name := [66], anonymous := false, exported := true }, .slice .str),
-  ({ name := [73, 110], anonymous := false, exported := true, nbt := [105, 110] }, .struct [] exInnerFields),
-  ({ name := [77], anonymous := false, exported := true }, .map (.slice (.int .i64)))]
-def exSpecs : List FSpec := [
-  ⟨[97], .int .i32, okI32, valI32, fun _ => 2⟩,
-  ⟨[66], .slice .str, okSlice .str okStr, valSlice .str valStr, needSlice fun _ => 2⟩,
-  ⟨[105, 110], .struct [] exInnerFields, okStruct exInnerSpecs, valStruct [] exInnerFields exInnerSpecs, needStruct exInnerSpecs⟩,
-  ⟨[77], .map (.slice (.int .i64)), okMap okNumsI64, valMap (.slice (.int .i64)) valNumsI64, needMap fun _ => 3⟩]
-
-theorem ex_plain : Plain (.struct [69, 120] exFields) (okStruct exSpecs) (valStruct [69, 120] exFields exSpecs)
-    (needStruct exSpecs) := by
-  refine .struct _ exFields exSpecs ?_ ?_
-  · have htf : typeFields (.struct [69, 120] exFields) =
-        [⟨[97], true, [0], .int .i32, false, false⟩, ⟨[66], false, [1], .slice .str, false, false⟩,
-         ⟨[105, 110], true, [2], .struct [] exInnerFields, false, false⟩,
-         ⟨[77], false, [3], .map (.slice (.int .i64)), false, false⟩] := by rfl
-    rw [htf]
-    simp only [exFields, exSpecs]
-    flat_shape
-  · intro sp h
-    simp only [exSpecs, List.mem_cons, List.not_mem_nil, or_false] at h
-    rcases h with rfl | rfl | rfl | rfl
-    · exact .i32
-    · exact .slice .str rfl
-    · exact exInner_plain
-    · exact .map .nums_i64
-
-/-- the document `{a: 7, B: ["x"], in: {X: 1.0, Y: -0.0}, M: {"k": [1, 2]}}` is in the class of `Ex` -/
-example : okStruct exSpecs (.compound [([97], .int 7), ([66], .list 8 [.string [120]]),
-    ([105, 110], .compound [([88], .double 0x3ff0000000000000), ([89], .double 0x8000000000000000)]),
-    ([77], .compound [([107], .longArray [1, 2])])]) := by
-  simp only [okStruct, exSpecs, okFields, exInnerSpecs, and_true, true_and]
-  refine ⟨⟨_, rfl⟩, ?_, ⟨⟨_, rfl⟩, ⟨_, rfl⟩⟩, ?_⟩
-  · refine ⟨by simp [NBT.WF, NBT.WFList, NBT.tag, NBT.tagString, NBT.tagEnd], ?_, by intro h; cases h⟩
-    intro t ht
-    simp only [List.mem_cons, List.not_mem_nil, or_false] at ht
-    subst ht
-    exact ⟨_, rfl, by decide⟩
-  · refine ⟨?_, by simp⟩
-    intro kv hkv
-    simp only [List.mem_cons, List.not_mem_nil, or_false] at hkv
-    subst hkv
-    exact ⟨by decide, _, rfl, by decide⟩
 
 end GoMC.Lemmas.NBTTyped
